@@ -1,5 +1,6 @@
 mod c09;
 mod c12;
+mod c15;
 mod gen;
 mod npath;
 mod obs;
@@ -26,6 +27,7 @@ fn main() {
             match id.as_str() {
                 "C09" => c09::drive(&tier, seed, workers),
                 "C12" => c12::drive(&tier, seed, workers),
+                "C15" => c15::drive(&tier, seed, workers),
                 _ => {
                     eprintln!("harness error: unknown property {}", id);
                     2
@@ -54,6 +56,7 @@ fn main() {
             match body["property"].as_str() {
                 Some("C09") => c09::replay(&body),
                 Some("C12") => c12::replay(&body),
+                Some("C15") => c15::replay(&body),
                 _ => {
                     eprintln!("harness error: replay file names no known property");
                     2
